@@ -237,8 +237,11 @@ def graph_loader(ctx):
 
 def r07_12(ctx, g):
     repo = ctx.repo
-    an = repo.func("gaftools.gfa", "GFA.add_node", "R07.12")
+    an = g.add_node  # normal form: private helpers inlined, aliases of the node's tag mapping written out
     ctx.analysed_func(an)
+    from ..core import make_resolver
+
+    res_ = make_resolver(an.node.body)
     params = [p for p in an.params if p != "self"]
     if len(params) < 3:
         raise AnalysisError("R07.12", an.where(), "add_node does not take (id, sequence, tags)")
@@ -260,7 +263,7 @@ def r07_12(ctx, g):
     for st in walk_own(an.node):
         if isinstance(st, ast.Assign) and isinstance(st.targets[0], ast.Subscript) and isinstance(st.targets[0].value, ast.Attribute) and st.targets[0].value.attr == "tags":
             nt += 1
-            k = st.targets[0].slice
+            k = res_(st.targets[0].slice)
             if isinstance(k, ast.Subscript) and const_value(k.slice, None) == 0:
                 ctx.holds("R07.12", an.where(st), "a tag is stored under its name as written in the file")
             elif isinstance(k, ast.Name):
